@@ -1,4 +1,5 @@
 """C18 - strand and canonical-site flags are pure functions of the reference sequence."""
+import re
 from collections import defaultdict
 
 from hypothesis import strategies as st
@@ -98,6 +99,11 @@ def scenarios(draw):
         sc["opts"] += ["--high_memory"]
     if src.bool(0.3):
         sc["opts"] += ["--model_construction_strategy", src.choice(["all", "sensitive_pacbio", "default_ont"])]
+    # the annotation may come from an earlier IsoQuant run (on this or on an earlier version of the reference) and carry
+    # Canonical attributes of its own
+    ca = src.choice([None, None, None, "True", "False", "mixed"])
+    if ca:
+        sc["gtf"] = dict(sc.get("gtf") or {}, canonical_attr=ca)
     # history dimension: subset mask
     sc["subset"] = [src.bool(0.6) for _ in sc["reads"]]
     return sc
@@ -205,10 +211,16 @@ def check_models(res, sc, genome, ctx, case):
         for tid, t in tt.items():
             if not t["records"]:
                 continue
-            c = t["records"][0]["attrs"].get("Canonical")
+            # a record may carry the attribute more than once (first of all when the input annotation has it):
+            # every occurrence is read by somebody's parser, every occurrence must be right
+            values = re.findall(r'Canonical "([^"]*)"', t["records"][0]["raw"])
             ex = t["exons"]
             introns = [(ex[i][1] + 1, ex[i + 1][0] - 1) for i in range(len(ex) - 1)]
-            if c is not None:
+            if len(set(values)) > 1:
+                ctx.violation("C18:model-with-contradictory-canonical-attributes",
+                              {"file": fn, "transcript": tid, "values": values}, case)
+                continue
+            for c in values[:1]:
                 if not introns:
                     if c != "Unspliced":
                         ctx.violation("C18:mono-exonic-model-not-Unspliced", {"file": fn, "transcript": tid}, case)
@@ -222,7 +234,7 @@ def check_models(res, sc, genome, ctx, case):
                         ctx.violation(sig, {"file": fn, "transcript": tid, "strand": t["strand"], "reported": c,
                                             "expected": exp,
                                             "sites": [canon.sites(genome[t["chr"]], i) for i in introns]}, case)
-            elif fn == "transcript_models.gtf":
+            if not values and fn == "transcript_models.gtf":
                 ctx.violation("C18:model-without-Canonical-attribute", {"transcript": tid}, case)
             # strand of novel spliced models
             if fn == "transcript_models.gtf" and tid not in ref and introns:
